@@ -125,6 +125,23 @@ def poll_leaf(ip, loc, leaf):
         if k == 'notified' and getattr(p, 'signals_never_fire', False):
             return PENDING
         phase = getattr(p, 'phase', None)
+        if k == 'deleted' and getattr(p, 'deleted_by_oneshot', False):
+            # Tier 4: the deletion signal is the shared one-shot of the observer
+            from t4 import sched_point
+            yield from sched_point(ip, 'Deleted::poll')
+            cid = leaf.data
+            if cid in getattr(p, 'sent', {}):
+                write_loc(loc, Leaf(k, leaf.data, True))
+                p.effect('ready', k, leaf.data)
+                return ready(UNIT)
+            act = getattr(ip, 'activity', None)
+            if act is not None:
+                w = getattr(p, 'oneshot_waiters', {})
+                w.setdefault(cid, [])
+                if act not in w[cid]:
+                    w[cid].append(act)
+                p.oneshot_waiters = w
+            return PENDING
         if phase is None and k == 'deleted':
             return PENDING       # no deletion is part of this scenario
         if phase is not None and k == 'deleted':
@@ -255,6 +272,12 @@ def _install_base(ctx):
             replies[s.cid] = args[1]
             p.sent = replies
             p.effect('oneshot.send', s.cid, args[1])
+            if getattr(p, 'fp', None) is not None:
+                p.fp.add(('oneshot-send',))
+            for act in getattr(p, 'oneshot_waiters', {}).pop(s.cid, []):
+                act.woken = True
+                if act.state == 'parked':
+                    act.state = 'ready'
             return ok(UNIT)
         raise Unsupported('send on %r' % (s,))
 
